@@ -41,7 +41,14 @@ pub fn info() -> PropInfo {
 fn collect(mut it: Attributes, cap: usize, checks: bool, reassert: u16) -> Result<Vec<Item>, String> {
     let mut out = vec![];
     let mut k = 0;
+    // the iterator is cloned before one of its first calls (which one is a pure function of the
+    // input size) and the iteration continues on the copy: a copy is an iterator in the same state
+    let clone_at = cap % 7;
     loop {
+        if k == clone_at {
+            let copy = it.clone();
+            it = copy;
+        }
         if k < 16 && reassert >> k & 1 == 1 {
             it.with_checks(checks);
         }
@@ -78,6 +85,16 @@ pub fn check(c: &Case) -> Verdict {
         let mut r = Reader::from_reader(&doc[..]);
         match r.read_event() {
             Ok(Event::Start(e)) if &*e == bytes => {
+                // ... from the event as read, or from an owned / re-borrowed copy of it
+                let owned;
+                let e = match bytes.len() % 3 {
+                    0 => e,
+                    1 => {
+                        owned = e.to_owned();
+                        owned.borrow()
+                    }
+                    _ => e.into_owned(),
+                };
                 let mut it = if c.html { e.html_attributes() } else { e.attributes() };
                 // checking is ON by default (documented): when it is wanted, every other case relies on
                 // the default instead of asking for it
